@@ -73,7 +73,13 @@ func genC11(tier string, seed int64) (*Family, error) {
 	}
 	fam.Outside = []string{"more than two calls per engine", "rule sets larger than 3", "pool wrappers (C06)"}
 	var b strings.Builder
-	for _, m := range engineModels() {
+	// staged models whose first stage holds two rules, stop-on-error: a failing first-stage rule must not let the
+	// call return while the other one still runs
+	wide := []modelCall{
+		{"NConcMConc21", "ExecuteNConcurrentMConcurrent", "eng.ExecuteNConcurrentMConcurrent(2, 1, rb, false)", 3, true},
+		{"NConcMSort21", "ExecuteNConcurrentMSort", "eng.ExecuteNConcurrentMSort(2, 1, rb, false)", 3, true},
+	}
+	for _, m := range append(engineModels(), wide...) {
 		name := "H_" + m.name
 		opts, q1, h1, f2 := "gqh", `symFlags("q", n)`, `symFlags("h", n)`, `symFlags("ff", n)`
 		if m.n >= 3 {
